@@ -70,6 +70,10 @@ STATEMENT_FAULTS: typing.Dict[str, typing.Tuple[typing.List[str], int]] = {
     "expr:dependency-constant-operand": (["@print {DEP}.K + true"], 0),
     "expr:offset-compared-with-scalar": (["@assert _offset_ == 1"], 0),
     "expr:string-with-hash": (["@assert '#' + \"a#b\" == 1  # tail"], 0),
+    # in a union the offset between fields is not defined, so once `_offset_` has been looked at no further field can be added: the fault
+    # is the first field after that (the library adds a field to the layout later than it parses it - at the next statement or blank line)
+    "union:field-after-offset": (["uint8 ua", "uint16 ub", "@assert _offset_.count >= 1", "uint32 uc"], 3),
+    "union:field-after-offset-in-constant": (["uint8 ua", "uint16 ub", "uint64 SIZE_OF_UNION = _offset_.max / 8", "", "uint64[<=2] uc"], 4),
     "type:undefined": (["Nope.1.0 missing"], 0),
     "type:undefined-in-array": (["ns.Nope.2.3[<=2] missing"], 0),
 }
@@ -113,17 +117,18 @@ def build_files(case: typing.Any) -> typing.Tuple[typing.Dict[str, str], typing.
         fault_at = (fault["pos"] % (len(body) + 1)) if is_fault_file else -1
         print_positions = {p["pos"] % (len(body) + 1): p for p in case.get("prints", []) if p["file"] % len(names) == fi}
         union_arity = cat == "definition:union-arity"
+        union_top = union_arity or (cat is not None and cat.startswith("union:"))
         for k in range(spec.get("lead", 0)):
             lines.append("" if k % 3 == 1 else "# lead line %d" % k)
             kinds.append("empty" if k % 3 == 1 else "comment")
-        if union_arity:
+        if union_top:
             lines.append("@union")
             kinds.append("stmt")
         lines.append("uint8 K = %d" % (fi + 1))
         kinds.append("stmt")
         dep_ref = names[fi + 1][: -len(".dsdl")] if fi + 1 < len(names) else "Nope.1.0"
         split_at = None
-        if fi == 0 and spec.get("split") is not None and cat not in ("marker:second", "definition:union-arity", "definition:missing-sealed") and cat != "directive:union-after-attribute":
+        if fi == 0 and spec.get("split") is not None and cat not in ("marker:second", "definition:union-arity", "definition:missing-sealed") and cat != "directive:union-after-attribute" and not union_top:
             split_at = spec["split"] % (len(body) + 1)
             seal_at = max(seal_at, split_at)
         # serialization mode of each section: @sealed somewhere, or @extent after the section's last attribute.  An extent fault
